@@ -140,3 +140,102 @@ func VerifC13TypeChange() {
 	vObserve("ndiffs", len(diffs))
 	vAssert(vBreaking(diffs), "parameter type/format narrowed (some raw value no longer parses) but no Breaking change reported")
 }
+
+func init() {
+	vRegister("VerifC13Body", VerifC13Body)
+	vRegister("VerifC13ResponseEdits", VerifC13ResponseEdits)
+}
+
+func vSymbolizeAll(root *vNode, defs vDefs, tag string) {
+	vSymbolize(root, tag)
+	for _, k := range vDefNames {
+		if n, ok := defs[k]; ok {
+			vSymbolize(n, tag+"."+k)
+		}
+	}
+}
+
+// C13, request body: schema templates (inline, $ref, nested $ref, allOf, arrays, cycles) with all
+// constraint values and required flags symbolic on both sides, plus one structural edit on the new side.
+func VerifC13Body() {
+	t := vChoice("template", vParam("templates"))
+	e := vChoice("edit", vNumEdits)
+	focus := 0
+	if e == 0 {
+		focus = vChoice("focus", 8)
+	}
+	focus2 := -1
+	if e == 0 && vParam("pairs") == 1 {
+		focus2 = vChoice("focus2", 9) - 1
+	}
+	bg := vBool2("background")
+	rootA, defsA, rootB, defsB, ok := vPair2(t, e, focus, focus2, bg)
+	if !ok {
+		vAssume(false)
+	}
+	if vKnown("C13-D16", e == 3 && vDeepLastKind(rootA, defsA) == vkInt) {
+		return
+	}
+	w := vWitnessFor(rootA, defsA, "w", 4)
+	vAssume(vAccepts(rootA, defsA, w, 4))
+	vAssume(vNot(vAccepts(rootB, defsB, w, 4)))
+	vCover("witness-exists")
+	vObserve("template", t)
+	vObserve("edit", e)
+	vObserve("focus", focus)
+	diffs, _ := Compare(vSpecWithBody(rootA, defsA), vSpecWithBody(rootB, defsB))
+	vObserve("ndiffs", len(diffs))
+	vAssert(vBreaking(diffs), "request body accepted by the old schema and rejected by the new one, but no Breaking change reported")
+}
+
+func vBool2(name string) bool { return vChoice(name, 2) == 1 }
+
+// C13, response side: the edits the statement lists as breaking for clients
+func VerifC13ResponseEdits() {
+	t := vChoice("template", vParam("templates"))
+	kind := vChoice("edit", 4)
+	bg := vBool2("background")
+	vObserve("template", t)
+	vObserve("edit", kind)
+	var rootA, rootB *vNode
+	var defsA, defsB vDefs
+	ok := true
+	switch kind {
+	case 0: // a response property is removed (first object)
+		rootA, defsA, rootB, defsB, ok = vPair(t, 1, 0, bg)
+	case 1: // a nested response property is removed (deepest object)
+		rootA, defsA, rootB, defsB, ok = vPair(t, 5, 0, bg)
+	default:
+		rootA, defsA, rootB, defsB, ok = vPair(t, 0, vChoice("focus", 8), bg)
+	}
+	if !ok {
+		vAssume(false)
+	}
+	s1 := vSpecWithResponse(rootA, defsA)
+	s2 := vSpecWithResponse(rootB, defsB)
+	switch kind {
+	case 2: // the response code is removed (another one stays)
+		r := s2.Paths.Paths["/a"].Get.Responses.StatusCodeResponses
+		r[404] = r[200]
+		delete(r, 200)
+	case 3: // a response header is removed
+		r := s1.Paths.Paths["/a"].Get.Responses.StatusCodeResponses
+		resp := r[200]
+		h := spec.Header{}
+		h.Type = "string"
+		resp.Headers = map[string]spec.Header{"X-Rate": h}
+		r[200] = resp
+	}
+	vCover("edit-applied")
+	diffs, _ := Compare(s1, s2)
+	vObserve("ndiffs", len(diffs))
+	vAssert(vBreaking(diffs), "response code/property/header removed but no Breaking change reported")
+}
+
+func vDeepLastKind(root *vNode, defs vDefs) int {
+	o := vDeepObj(root, defs, 4)
+	if o == nil || len(o.props) == 0 {
+		return -1
+	}
+	return o.props[len(o.props)-1].node.kind
+}
